@@ -52,7 +52,7 @@ impl Hyp {
         let hi = n.min(kk);
         let p = n as f64 / nn as f64;
         let (lp, lq) = (p.ln(), ln_1p(-p));
-        let p3 = binom_raw(n as f64, nn as f64, (nn - n) as f64, 0.0, lp, lq);
+        let p3 = binom_raw(n as f64, nn as f64, (nn - n) as f64, 0.0, n as f64, (nn - n) as f64, lp, lq);
         Hyp { nn, kk, n, lo, hi, lp, lq, p3 }
     }
     fn pmf(&self, x: u64) -> f64 {
@@ -65,10 +65,13 @@ impl Hyp {
         // d1 = K n / N - x
         let num = self.kk as i128 * self.n as i128 - x as i128 * self.nn as i128;
         let d1 = num as f64 / self.nn as f64;
-        let p1 = binom_raw(x as f64, self.kk as f64, (self.kk - x) as f64, d1, self.lp, self.lq);
+        let (pp, qq) = (self.n as f64 / self.nn as f64, (self.nn - self.n) as f64 / self.nn as f64);
+        let kf = self.kk as f64;
+        let p1 = binom_raw(x as f64, kf, (self.kk - x) as f64, d1, kf * pp, kf * qq, self.lp, self.lq);
         let nk = self.nn - self.kk;
         let y = self.n - x;
-        let p2 = binom_raw(y as f64, nk as f64, (nk - y) as f64, -d1, self.lp, self.lq);
+        let nkf = nk as f64;
+        let p2 = binom_raw(y as f64, nkf, (nk - y) as f64, -d1, nkf * pp, nkf * qq, self.lp, self.lq);
         p1 * p2 / self.p3
     }
     /// pmf(x+1)/pmf(x)
@@ -125,7 +128,8 @@ impl Bin {
             return if k == self.n { 1.0 } else { 0.0 };
         }
         let d = np_minus_k(self.n, self.p, k);
-        binom_raw(k as f64, self.n as f64, (self.n - k) as f64, d, self.lp, self.lq)
+        let nf = self.n as f64;
+        binom_raw(k as f64, nf, (self.n - k) as f64, d, nf * self.p, nf * (1.0 - self.p), self.lp, self.lq)
     }
     #[inline]
     fn up(&self, k: u64) -> f64 {
@@ -453,11 +457,8 @@ impl Disc {
                 if k < 1 {
                     return (0.0, 1.0);
                 }
-                if k == u64::MAX {
-                    return (1.0, 0.0);
-                }
                 let lo = hsum(1, k, s);
-                let hi = hurwitz(k + 1, s);
+                let hi = if k == u64::MAX { hurwitz_f(1.8446744073709552e19, s) } else { hurwitz(k + 1, s) };
                 let tot = lo + hi;
                 (lo / tot, hi / tot)
             }
